@@ -5,13 +5,13 @@ EXTENDS CactusRefTrace
 OpsAll == {"New", "CloneRoot", "CloneStored", "DropRoot", "Store", "Take", "DropStored",
            "Adopt", "Unadopt", "AdoptSame", "UnadoptSame", "AdoptStore", "TakeUnadopt",
            "Downgrade", "Upgrade", "UpgradeStored", "WeakClone", "WeakDrop", "StoreWeak", "TakeWeak",
-           "TryUnwrap", "GetMut", "MakeMut", "IntoRaw", "FromRaw", "IncStrong", "DecStrong", "DropDetached"}
+           "TryUnwrap", "GetMut", "MakeMut", "IntoRaw", "FromRaw", "IncStrong", "DecStrong", "DropDetached", "Misc"}
 CapsBig == [strong |-> 100000, stored |-> 100000, rec |-> 100000, weak |-> 100000, storedW |-> 100000, over |-> TRUE, elide |-> TRUE, scripted |-> 100000]
 VPinned == [bust |-> "out", loop |-> "split", consume |-> "ignore"]
 VFixed  == [bust |-> "owned", loop |-> "ignored", consume |-> "purge"]
 VFixAB  == [bust |-> "owned", loop |-> "ignored", consume |-> "ignore"]
 VFixA   == [bust |-> "owned", loop |-> "split", consume |-> "ignore"]
 MenuAny == {NoScript}
-PropsAll == {"C09", "C01", "C02", "C03", "C04", "C05", "C06", "C08", "C10", "C11", "C12", "C13", "C14", "C15", "C16"}
+PropsAll == {"C07", "C09", "C01", "C02", "C03", "C04", "C05", "C06", "C08", "C10", "C11", "C12", "C13", "C14", "C15", "C16"}
 VPurge == [bust |-> "owned", loop |-> "ignored", consume |-> "purge"]
 =============================================================================
